@@ -71,7 +71,7 @@ func main() {
 		Mode: packages.NeedName | packages.NeedFiles | packages.NeedCompiledGoFiles | packages.NeedSyntax |
 			packages.NeedTypes | packages.NeedTypesInfo | packages.NeedImports | packages.NeedDeps,
 		Dir: *dir,
-		Env: append(os.Environ(), "GOFLAGS=-mod=mod", "GOPROXY=off", "GOSUMDB=off"),
+		Env: os.Environ(),
 	}
 	loaded, err := packages.Load(cfg, pkgs...)
 	if err != nil {
